@@ -177,12 +177,66 @@ def result_chain(t):
     return t, stores
 
 
+def _has_marks(t):
+    """the result carries -1 stores (directly, or in a block of scores stored into it)"""
+    return any(z.op == "upd" and z.a[1] == "setitem" and is_lit(z.a[3]) and lit(z.a[3]) < 0 for z in tm.walk(t))
+
+
 def model(ctx, name, rule):
     f = ctx.program.func("chord." + name, rule)
     s = ctx.S.get(f.qual)
-    need(len(s.returns) == 1, rule, "chord.%s: expected a single return" % name)
-    base, stores = result_chain(s.returns[0].term)
+    rets = list(s.returns)
+    if len(rets) > 1:
+        # several exits: the comparison proper is the one whose result receives the -1 ("not comparable") marks; an
+        # exit that returns nothing (an empty array) needs none; an exit that hands out a constant-filled score vector
+        # has skipped the marks - judged by rule_fastexit; anything else is not a shape these rules read
+        masked = [r for r in rets if _has_marks(r.term)]
+        need(len(masked) == 1, rule, "chord.%s: expected a single return" % name)
+        for r in rets:
+            if r is masked[0]:
+                continue
+            t = r.term
+            empty = t.op == "call" and call_name(t) == "np.array" and t.a[1] and t.a[1][0].op in ("list", "tuple") and not t.a[1][0].a
+            const_fill = t.op == "call" and call_name(t) in ("np.ones", "np.zeros", "np.full", "np.ones_like", "np.zeros_like")
+            need(empty or const_fill, rule, "chord.%s: expected a single return" % name)
+        rets = masked
+    base, stores = result_chain(rets[0].term)
     return f, s, base, stores
+
+
+def rule_fastexit(ctx):
+    """Every exit of a comparison function that returns scores has applied the reference-only "not comparable" marks:
+    a fast path that hands out a constant-filled vector (all ones for "identical pairs") scores X and out-of-vocabulary
+    references that the documented comparison marks -1."""
+    R = "C11.FASTEXIT"
+    n = 0
+    for name in list(PLAIN) + [x for x in ("mirex", "thirds_inv", "triads_inv", "tetrads_inv", "majmin_inv", "sevenths_inv") if x not in PLAIN]:
+        if not ctx.program.has_func("chord." + name):
+            continue
+        f = ctx.program.func("chord." + name, R)
+        s = ctx.S.get(f.qual)
+        rets = list(s.returns)
+        masked = [r for r in rets if _has_marks(r.term)]
+        if len(rets) == 1:
+            n += 1
+            yield ob(R, f, "chord.%s:exits" % name, True, "single exit")
+            continue
+        for k, r in enumerate(rets):
+            if r in masked:
+                continue
+            t = r.term
+            empty = t.op == "call" and call_name(t) == "np.array" and t.a[1] and t.a[1][0].op in ("list", "tuple") and not t.a[1][0].a
+            if empty:
+                n += 1
+                yield ob(R, f, "chord.%s:exit@%d" % (name, k + 1), True, "an exit that returns no scores at all", node=r.node)
+                continue
+            const_fill = t.op == "call" and call_name(t) in ("np.ones", "np.zeros", "np.full", "np.ones_like", "np.zeros_like")
+            if const_fill:
+                n += 1
+                yield ob(R, f, "chord.%s:exit@%d" % (name, k + 1), False, "an exit returns the constant-filled vector %s (under %s) without the reference-only -1 marks: an X / out-of-vocabulary reference is scored instead of ignored" % (tm.show(t, 2), "; ".join(tm.show(c, 2) for c, _ in symeval.pc_conds(r.pc))), node=r.node)
+                continue
+            raise AnalysisError(R, "chord.%s: an exit returns %s, which is neither the marked result nor a constant vector" % (name, tm.show(t, 2)))
+    need(n >= 5, R, "comparison functions not found")
 
 
 def rule_conj(ctx):
@@ -665,6 +719,7 @@ def rule_encodeall(ctx):
 
 
 RULES = [
+    ("C11.FASTEXIT", 10, rule_fastexit),
     ("C11.ROTATEROWS", 2, common.shared("c09", "rule_rotaterows", "C11.ROTATEROWS")),
     ("C11.ENCODEPOST", 2, common.shared("c10", "rule_encodepost", "C11.ENCODEPOST")),
     ("C11.TABLES", 30, common.shared("c10", "rule_tables", "C11.TABLES", keep=lambda o: "QUALITIES" in o.construct or "EXTENDED" in o.construct)),
